@@ -153,32 +153,45 @@ def Node.iface (n : Node) (role : String) : Except Err Iface := do
 
 /-! ## `_get_peer_variant` -/
 
-def peerVariant (ll lr lp : SDict) : Except Err (SDict × SDict × SDict) := do
-  let rl : SDict := [("type", "nic")]
+/-- the `right_remote` dictionary (first `if` of `_get_peer_variant`) -/
+def variantRemote (ll : SDict) (llt : String) : Except Err SDict :=
   let rr : SDict := [("type", "custom")]
+  if llt = "nic" then do
+    let nic ← ll.getItem "nic"
+    pure ((rr.set "type" "custom").set "nic" nic)
+  else if llt = "internetip" then pure (rr.set "type" "externalip")
+  else pure rr
+
+/-- the `right_local` dictionary (second `if`) -/
+def variantLocal (lr : SDict) (llt lrt : String) : Except Err SDict :=
+  let rl : SDict := [("type", "nic")]
+  if lrt = "custom" then
+    (if llt = "custom" then pure (rl.set "type" "custom")
+     else do
+       let nic ← lr.getItem "nic"
+       pure ((rl.set "type" "nic").set "nic" nic))
+  else if lrt = "externalip" then pure (rl.set "type" "internetip")
+  else pure rl
+
+/-- the `right_peer` dictionary (third `if`; "road warriors are always assumed to be on the left side") -/
+def variantPeer (lp : SDict) (lpt : String) : Except Err SDict :=
   let rp : SDict := [("type", "ip")]
+  if lpt = "dynip" then do
+    let nic ← lp.getItem "nic"
+    pure ((rp.set "type" "ip").set "nic" nic)
+  else if lpt = "ip" then do
+    let nic ← lp.getItem "nic"
+    pure ((rp.set "type" "ip").set "nic" nic)
+  else pure rp
+
+/-- `_get_peer_variant`: returns `(right_local, right_remote, right_peer)`; statements in program order -/
+def peerVariant (ll lr lp : SDict) : Except Err (SDict × SDict × SDict) := do
   let llt ← ll.getItem "type"
-  let rr ← if llt = "nic" then do
-             let nic ← ll.getItem "nic"
-             pure ((rr.set "type" "custom").set "nic" nic)
-           else if llt = "internetip" then pure (rr.set "type" "externalip")
-           else pure rr
+  let rr ← variantRemote ll llt
   let lrt ← lr.getItem "type"
-  let rl ← if lrt = "custom" then
-             (if llt = "custom" then pure (rl.set "type" "custom")
-              else do
-                let nic ← lr.getItem "nic"
-                pure ((rl.set "type" "nic").set "nic" nic))
-           else if lrt = "externalip" then pure (rl.set "type" "internetip")
-           else pure rl
+  let rl ← variantLocal lr llt lrt
   let lpt ← lp.getItem "type"
-  let rp ← if lpt = "dynip" then do
-             let nic ← lp.getItem "nic"
-             pure ((rp.set "type" "ip").set "nic" nic)
-           else if lpt = "ip" then do
-             let nic ← lp.getItem "nic"
-             pure ((rp.set "type" "ip").set "nic" nic)
-           else pure rp
+  let rp ← variantPeer lp lpt
   pure (rl, rr, rp)
 
 /-! ## `VMTunnel.__init__` -/
